@@ -22,7 +22,7 @@ def check_one(files, entry, cpu=10):
     r, trace, dump = run_traced(files, entry, cpu=cpu)
     if r.cls in ("wall_timeout", "spawn_error"):
         return {"inconclusive": r.cls}
-    if "Did not compile successfully" in r.out + r.err and core.BANNER not in r.err:
+    if core.compile_rejected(r):
         return {"skip": "rejected"}
     if trace is None or dump is None:
         if r.cls == "ok" or core.BANNER in r.err:
